@@ -30,7 +30,23 @@ type pubSpec struct {
 	Ty        int  `json:"type"`
 	Any       bool `json:"through_any"`
 	Cancelled bool `json:"cancelled"`
+	// Iface: published from a variable of a non-empty interface type (a domain interface, or
+	// `var err error`): the type parameter is that interface, the event's type is still the
+	// dynamic one - for the hooks and for the handlers that run
+	Iface bool `json:"through_a_non_empty_interface,omitempty"`
+	// Detached: the publish context is a caller-defined context that forwards Value to a
+	// cancelled parent and is itself never done (Done() == nil, Err() == nil), the shape of
+	// context.WithoutCancel: a live context by the interface's contract
+	Detached bool `json:"detached_from_a_cancelled_parent,omitempty"`
 }
+
+// detachedCtx keeps its parent's values and none of its cancellation.
+type detachedCtx struct{ parent context.Context }
+
+func (detachedCtx) Deadline() (time.Time, bool) { return time.Time{}, false }
+func (detachedCtx) Done() <-chan struct{}       { return nil }
+func (detachedCtx) Err() error                  { return nil }
+func (d detachedCtx) Value(k any) any           { return d.parent.Value(k) }
 
 type seqcase struct {
 	Pubs []pubSpec `json:"publishes"`
@@ -59,6 +75,12 @@ func (s seqcase) String() string {
 		}
 		if x.Cancelled {
 			t += "/cancelled"
+		}
+		if x.Iface {
+			t += "/iface"
+		}
+		if x.Detached {
+			t += "/detached"
 		}
 		p = append(p, t)
 	}
@@ -161,10 +183,17 @@ func (in *seqInst) Body() {
 		if p.Cancelled {
 			cancel()
 		}
-		if p.Any {
-			types[p.Ty].PubAny(bus, ctx, i+1)
+		var pctx context.Context = ctx
+		if p.Detached {
+			cancel()
+			pctx = detachedCtx{ctx}
+		}
+		if p.Iface {
+			types[p.Ty].PubIface(bus, pctx, i+1)
+		} else if p.Any {
+			types[p.Ty].PubAny(bus, pctx, i+1)
 		} else {
-			types[p.Ty].PubCtx(bus, ctx, i+1)
+			types[p.Ty].PubCtx(bus, pctx, i+1)
 		}
 		if i == 0 && in.s.Swap == 1 {
 			bus.SetBeforePublishHook(hookGen("before", 2))
@@ -209,6 +238,12 @@ func (in *seqInst) Check(res *vrt.Result) []vrt.Violation {
 		how := "a typed publish"
 		if p.Any {
 			how = "a publish through an interface-typed type parameter"
+		}
+		if p.Iface {
+			how = "a publish from a variable of a non-empty interface type"
+		}
+		if p.Detached {
+			how += " with a caller-defined context that is detached from its cancelled parent (never done itself)"
 		}
 		if i > 0 {
 			how += " that follows other publishes"
@@ -312,7 +347,7 @@ func seqcases(thorough bool) []seqcase {
 		for ty := 0; ty < 2; ty++ {
 			for _, a := range []bool{false, true} {
 				for _, c := range []bool{false, true} {
-					rec(append(cur, pubSpec{ty, a, c}))
+					rec(append(cur, pubSpec{Ty: ty, Any: a, Cancelled: c}))
 				}
 			}
 		}
@@ -347,6 +382,21 @@ func seqcases(thorough bool) []seqcase {
 				for _, st := range []int{0, 1} {
 					l = append(l, seqcase{Pubs: []pubSpec{{Ty: t1, Cancelled: c1}, {Ty: 0, Cancelled: c2}}, Store: st, AfterShutdown: true})
 				}
+			}
+		}
+	}
+	// published from a variable of a non-empty interface type; with a detached context
+	for ty := 0; ty < 2; ty++ {
+		for _, st := range []int{0, 1, 2} {
+			for _, ps := range [][]pubSpec{
+				{{Ty: ty, Iface: true}, {Ty: ty}},
+				{{Ty: 1 - ty}, {Ty: ty, Iface: true}},
+				{{Ty: ty, Iface: true, Cancelled: true}, {Ty: ty, Iface: true}},
+				{{Ty: ty, Detached: true}, {Ty: ty}},
+				{{Ty: ty}, {Ty: 1 - ty, Detached: true}},
+				{{Ty: ty, Iface: true, Detached: true}, {Ty: ty, Any: true, Detached: true}},
+			} {
+				l = append(l, seqcase{Pubs: ps, Store: st})
 			}
 		}
 	}
